@@ -58,16 +58,16 @@ type segSpec struct {
 	Own     bool     `json:"own,omitempty"`     // this segment is the owner of its entry points for the decode_entry_points audit
 }
 
-type layout struct{ bin, text, val, race int }
+type layout struct{ bin, text, val, race, a386 int }
 
 func layoutOf(tier string) layout {
 	if tier == "quick" {
-		return layout{bin: 8, text: 8, val: 12, race: 6}
+		return layout{bin: 8, text: 8, val: 12, race: 6, a386: 2}
 	}
-	return layout{bin: 32, text: 16, val: 48, race: 8}
+	return layout{bin: 32, text: 16, val: 48, race: 8, a386: 4}
 }
 
-func (l layout) total() int { return l.bin + l.text + l.val + l.race }
+func (l layout) total() int { return l.bin + l.text + l.val + l.race + l.a386 }
 
 // role maps a batch index to its workload: the -race copies first (they are the slowest), then the
 // validation histories, the text/JSON entry points and the binary decoders.
@@ -79,8 +79,11 @@ func (l layout) role(k int) (string, int) {
 		return "val", k - l.race
 	case k < l.race+l.val+l.text:
 		return "text", k - l.race - l.val
+	case k < l.race+l.val+l.text+l.bin:
+		return "bin", k - l.race - l.val - l.text
 	}
-	return "bin", k - l.race - l.val - l.text
+	// the last batches run from the GOARCH=386 build (int and uintptr are 32 bits wide there)
+	return "arch386", k - l.race - l.val - l.text - l.bin
 }
 
 var families = []string{"compressed", "v1only", "v2genesis", "scrambled", "testnet", "legacywin"}
@@ -158,6 +161,26 @@ func plan(b *harness.B) []segSpec {
 			fam := families[(j/2+i*5)%len(families)]
 			segs = append(segs, segSpec{Kind: "val", Name: fmt.Sprintf("val-%d-%d-%s-p%d", j/2, i, fam, j%2), Family: fam, NetIdx: (j/2)*100 + i, Part: j % 2, Parts: 2})
 		}
+	case "arch386":
+		var mine []string
+		for i, n := range binNames() {
+			if i%l.a386 == j {
+				mine = append(mine, n)
+			}
+		}
+		for i, c := range chunk(mine, 30) {
+			segs = append(segs, segSpec{Kind: "bin", Name: fmt.Sprintf("x86bin-%d-%d", j, i), Entries: c, Light: true})
+		}
+		var tm []string
+		for i, e := range textRegistry() {
+			if i%l.a386 == j {
+				tm = append(tm, e.Name)
+			}
+		}
+		for i, c := range chunk(tm, 10) {
+			segs = append(segs, segSpec{Kind: "text", Name: fmt.Sprintf("x86text-%d-%d", j, i), Entries: c, Light: true})
+		}
+		segs = append(segs, segSpec{Kind: "val", Name: fmt.Sprintf("x86val-%d", j), Family: families[(j*5+2)%len(families)], NetIdx: 9500 + j, Light: true, Parts: 1})
 	default:
 		// -race (checkptr) copies with a reduced budget
 		var mine []string
@@ -542,6 +565,14 @@ func main() {
 		},
 		Batches: func(t string) int { return layoutOf(t).total() },
 		Run:     run,
+		Arch386Batches: func(t string) []int {
+			l := layoutOf(t)
+			var out []int
+			for i := 0; i < l.a386; i++ {
+				out = append(out, l.race+l.val+l.text+l.bin+i)
+			}
+			return out
+		},
 		RaceBatches: func(t string) []int {
 			l := layoutOf(t)
 			var out []int
